@@ -18,6 +18,7 @@
 import DD.Capacity
 import DD.Capacity2
 import DD.Capacity3
+import DD.Capacity3Cofactor
 import DD.Driver
 open Std
 
@@ -127,6 +128,20 @@ def stepLineCap (s : CapSession) (line : String) : CapSession × String :=
           | some u, some [] => runCapOn s id sched (DRes.int <$> applyCapL cap aop u none none) (DRes.int <$> applyCap cap aop u none none)
           | some u, some [v] => runCapOn s id sched (DRes.int <$> applyCapL cap aop u (some v) none) (DRes.int <$> applyCap cap aop u (some v) none)
           | some u, some [v, w] => runCapOn s id sched (DRes.int <$> applyCapL cap aop u (some v) (some w)) (DRes.int <$> applyCap cap aop u (some v) (some w))
+          | _, _ => (s, "err OtherError")
+        | "cofactor", [u, d] =>
+          match parseInt? u, (parsePairs d).bind (fun ps => ps.mapM fun (k, b) => do
+              let k ← parseKey k; let b ← parseBool? b; pure (k, b)) with
+          | some u, some d =>
+            if old then runCapOn s id sched (DRes.int <$> cofactorCapO cap u d) (DRes.int <$> cofactorCapO cap u d)
+            else runCapOn s id sched (DRes.int <$> cofactorCapL cap u d) (DRes.int <$> cofactorCap cap u d)
+          | _, _ => (s, "err OtherError")
+        | "let_b", [u, d] =>
+          match parseInt? u, (parsePairs d).bind (fun ps => ps.mapM fun (k, b) => do
+              let k ← parseKey k; let b ← parseBool? b; pure (k, b)) with
+          | some u, some d =>
+            if old then runCapOn s id sched (DRes.int <$> letBoolsG (cofactorCapO cap) d u) (DRes.int <$> letBoolsG (cofactorCapO cap) d u)
+            else runCapOn s id sched (DRes.int <$> letBoolsG (cofactorCapL cap) d u) (DRes.int <$> letBoolsG (cofactorCap cap) d u)
           | _, _ => (s, "err OtherError")
         | "quantify", [u, q, fa] =>
           match parseInt? u, parseKeys q, parseBool? fa with
